@@ -346,6 +346,14 @@ func synSetup4(args ...string) (handler.Handler4, error) {
 			sharedCounter++
 			sharedMu.Unlock()
 			return resp, false
+		case "fresh":
+			// a plugin that answers with a reply object it built itself: only what a client needs, no relay/flag fields
+			n := &dhcpv4.DHCPv4{OpCode: dhcpv4.OpcodeBootReply, HWType: resp.HWType, TransactionID: resp.TransactionID,
+				ClientHWAddr: resp.ClientHWAddr, ClientIPAddr: net.IPv4zero, YourIPAddr: resp.YourIPAddr, ServerIPAddr: net.IPv4zero,
+				GatewayIPAddr: net.IPv4zero, Options: make(dhcpv4.Options)}
+			n.UpdateOption(dhcpv4.OptMessageType(resp.MessageType()))
+			addTrail4(n, id)
+			return n, false
 		case "nak":
 			resp.UpdateOption(dhcpv4.OptMessageType(dhcpv4.MessageTypeNak))
 			addTrail4(resp, id)
